@@ -222,7 +222,7 @@ var addingFocus bool
 
 // focusLabels is the alphabet of the second exploration: the focus-only events plus the context
 // they need (older/newer versions of the same address, fillers of both authors for eviction).
-var focusLabels = []string{"r2", "q1", "a1", "a3", "v2", "pt", "dPt", "a2d", "aY", "dQv2", "dQa1", "xt", "x1"}
+var focusLabels = []string{"r2", "q1", "a1", "a3", "v2", "pt", "dPt", "a2d", "aY", "dQv2", "dQa1", "xt", "x1", "tv"}
 
 func init() {
 	P, Q := authorP, authorQ
@@ -238,6 +238,8 @@ func init() {
 	// two d tags: the address is given by the FIRST one (d=x); a d=y event is a different address
 	addEv("a2d", "P kind 30000 @2 tags [d,x],[d,y] (address d=x)", P, 30000, 2, tag("d", "x"), tag("d", "y"))
 	addEv("aY", "P kind 30000 d=y @1", P, 30000, 1, tag("d", "y"))
+	// tags that have a name and no value element
+	addEv("tv", "P kind 1 @3 tags [t],[d] (no value elements)", P, 1, 3, tag("t"), tag("d"))
 	// deletion requests of Q naming P's replaceable / addressable event by id
 	addEv("dQv2", "Q kind 5 @3 e:<v2> (other author's replaceable event by id)", Q, 5, 3, tag("e", evID("v2")))
 	addEv("dQa1", "Q kind 5 @3 e:<a1> (other author's addressable event by id)", Q, 5, 3, tag("e", evID("a1")))
